@@ -414,6 +414,8 @@ def rule_h11(ctx) -> None:
             elif isinstance(x, ast.Call):
                 if isinstance(x.func, ast.Attribute) and x.func.attr in ("keys",) and not x.args:
                     continue
+                if isinstance(x.func, ast.Name) and x.func.id in ("isinstance", "hasattr", "len", "str", "bool"):
+                    continue  # shape tests, not a selection by the row's data
                 if isinstance(x.func, ast.Attribute) and x.func.attr == "get" and x.args and texts(ctx.ev.eval(x.args[0], st.env)) <= by:
                     continue
                 return False
